@@ -178,3 +178,108 @@ def host_block(prop="C07"):
         c.ensures(f"frame_parent_{f}_unchanged", fr, role="frame")
     c.no_raise = True
     return c
+
+
+# ------------------------------------------------------------------ submodules: which scope a submodule inherits its tables from
+def submodule_block(prop="C07"):
+    """FortranCodeUnit.correlate, the first `if isinstance(self, FortranSubmodule)` statement: a submodule whose parent is a submodule inherits that parent's
+    procedure / abstract-interface / type tables (the parent's entries win over what the host block put there); only a direct child of a module inherits the
+    ancestor module's tables (and its variables); in both cases it is registered in the `descendants` of exactly that parent."""
+    from pyvc.engine import map_or, map_ite
+    from pyvc.blocks import TargetMissing
+    import ast
+    c = base(Contract("ford.sourceform", "FortranCodeUnit.correlate", prop))
+    c.qual_suffix = "submodule_block"
+
+    def select(fn):
+        hits = [st for st in fn.body if isinstance(st, ast.If) and ast.unparse(st.test) == "isinstance(self, FortranSubmodule)"]
+        if not hits:
+            raise TargetMissing("no `if isinstance(self, FortranSubmodule):` statement in correlate")
+        return [hits[0]]
+    c.block_select = select
+    c.dropped.append("block contract: the first top-level statement `if isinstance(self, FortranSubmodule): ...` of FortranCodeUnit.correlate")
+    c.param("self", TRef("FortranCodeUnit"))
+    c.param("project", TOpaque("project"))
+    cm = class_model()
+    TABS = ["all_procs", "all_absinterfaces", "all_types", "all_vars"]
+
+    def setup(eng, path):
+        for f in TABS + ["parent_submodule", "ancestor_module", "descendants"]:
+            eng.field_array(path, f)
+        path.heap._dmap(SDict(0, "str", "ref"))
+        path.heap._lmap("ref")
+    c.extra_setup.append(setup)
+    c.fields.update({"parent_submodule": "ref", "ancestor_module": "ref", "descendants": "list:ref"})
+    ps = lambda v: sel(H(v, "parent_submodule"), v.self)
+    am = lambda v: sel(H(v, "ancestor_module"), v.self)
+    is_sub = lambda v: cm.is_a(v.self, "FortranSubmodule")
+    from_sub = lambda v: z3.And(ps(v) != 0, cm.is_a(ps(v), "FortranSubmodule"))
+    from_mod = lambda v: z3.And(z3.Not(from_sub(v)), am(v) != 0, cm.is_a(am(v), "FortranModule"))
+
+    def req(v):
+        a0 = v.heap.alloc0
+        ids = [sel(H(v, t), o) for t in TABS for o in (v.self, ps(v), am(v))]
+        conj = [z3.And(i > 0, i < a0) for i in ids]
+        conj.append(z3.Distinct(*[sel(H(v, t), v.self) for t in TABS] + [sel(H(v, t), ps(v)) for t in TABS] + [sel(H(v, t), am(v)) for t in TABS]))
+        conj += [ps(v) != v.self, am(v) != v.self, ps(v) >= 0, am(v) >= 0, ps(v) < a0, am(v) < a0,
+                 z3.Or(ps(v) == 0, am(v) == 0, ps(v) != am(v))]
+        for o in (ps(v), am(v)):
+            conj.append(z3.And(sel(H(v, "descendants"), o) > 0, sel(H(v, "descendants"), o) < a0))
+        conj.append(z3.Distinct(sel(H(v, "descendants"), ps(v)), sel(H(v, "descendants"), am(v))))
+        return z3.And(*conj)
+    c.requires("shape", req)
+
+    def merged(v0, v1, tab, src):
+        h0, x0 = dct(v0, tab, v0.self)
+        hs, xs = dct(v0, tab, src)
+        h1, x1 = dct(v1, tab, v0.self)
+        return z3.And(h1 == map_or(h0, hs), x1 == map_ite(hs, xs, x0))
+
+    def same(v0, v1, tab):
+        h0, x0 = dct(v0, tab, v0.self)
+        h1, x1 = dct(v1, tab, v0.self)
+        return z3.And(h1 == h0, x1 == x0)
+    desc = lambda v, o: v.heap.list_get(SList(sel(H(v, "descendants"), o), "ref"))
+
+    def post(v0, res, v1):
+        s = v0.self
+        sub_case = z3.And(*[merged(v0, v1, t, ps(v0)) for t in TABS[:3]], same(v0, v1, "all_vars"),
+                          desc(v1, ps(v0)) == z3.Concat(desc(v0, ps(v0)), z3.Unit(s)), desc(v1, am(v0)) == desc(v0, am(v0)))
+        mod_case = z3.And(*[merged(v0, v1, t, am(v0)) for t in TABS],
+                          desc(v1, am(v0)) == z3.Concat(desc(v0, am(v0)), z3.Unit(s)))
+        none = z3.And(*[same(v0, v1, t) for t in TABS])
+        return z3.If(z3.Not(is_sub(v0)), none, z3.If(from_sub(v0), sub_case, z3.If(from_mod(v0), mod_case, none)))
+    c.ensures("a_submodule_inherits_the_tables_of_its_parent_submodule_else_of_its_ancestor_module", post)
+    c.no_raise = True
+    return c
+
+
+def extension_order(prop="C07"):
+    """call-site obligation for toposort_flatten in FortranCodeUnit.correlate: the types of a scope are correlated in an order computed from the map
+    {type: {its resolved local parent}} - so that a type's parent has merged what it inherits before the type itself is correlated"""
+    import ast
+    from harness import loader
+    from harness.core import OR, PROVED, REFUTED, UNKNOWN
+    fn = loader.find_def("ford.sourceform", "FortranCodeUnit.correlate")
+    oid = f"{prop}.S.FortranCodeUnit.correlate.types_correlated_in_extension_order"
+    tgt = "ford.sourceform.FortranCodeUnit.correlate"
+    build = [st for st in fn.body if isinstance(st, ast.For) and ast.unparse(st.iter) == "self.types" and "typelist" in ast.unparse(st)]
+    order = [st for st in fn.body if isinstance(st, ast.Assign) and ast.unparse(st.targets[0]) == "typeorder"]
+    walk = [st for st in fn.body if isinstance(st, ast.For) and any(isinstance(x, ast.Call) and ast.unparse(x.func).endswith(".correlate") for x in ast.walk(st))
+            and ast.unparse(st.target) == "dtype"]
+    if len(build) != 1 or len(order) != 1 or len(walk) != 1:
+        return [OR(id=oid, status=UNKNOWN, kind="S", role="pre", backend="ast", target=tgt, detail=f"statements not found in the recognised form (map loop {len(build)}, order {len(order)}, "
+                   f"correlating loop {len(walk)}); the bounded stand-in decides")]
+    b = build[0]
+    ok_map = (len(b.body) == 1 and isinstance(b.body[0], ast.If)
+              and [ast.unparse(s) for s in b.body[0].body] == ["dtype.extends = self.all_types[dtype.extends.lower()]", "typelist[dtype] = set([dtype.extends])"]
+              and [ast.unparse(s) for s in b.body[0].orelse] == ["typelist[dtype] = set([])"]
+              and ast.unparse(b.body[0].test) == "dtype.extends and dtype.extends.lower() in self.all_types")
+    ok_order = ast.unparse(order[0].value) == "toposort.toposort_flatten(typelist)"
+    ok_walk = ast.unparse(walk[0].iter) == "typeorder"
+    ok = ok_map and ok_order and ok_walk
+    return [OR(id=oid, status=PROVED if ok else REFUTED, kind="S", role="pre", backend="ast", target=tgt,
+               desc="every type maps to the set holding its resolved local parent (or the empty set), the order is toposort_flatten of that map (library contract: dependencies first), "
+                    "and the correlating loop follows that order",
+               witness=None if ok else {"dependency map as specified": ok_map, "order is toposort_flatten(typelist)": ok_order, "loop iterates typeorder": ok_walk,
+                                        "order expression": ast.unparse(order[0].value), "loop iterates": ast.unparse(walk[0].iter)})]
